@@ -219,6 +219,15 @@ func init() {
 			{Name: "exhaustive", QShards: 4, TShards: 10, Run: c12Exhaustive},
 			{Name: "random", TShards: 4, Run: c12Random},
 			{Name: "bytes", Run: c12Bytes},
+			{Name: "longcontext", TShards: 2, Run: func(c *Ctx) {
+				longContextPanics(c, 0, "ACGTNacgtn", []byte{'U', 'R', '@', 0, 0xff, 0x80, 'B', 'M'}, map[string]func([]byte){
+					"ReverseComplement":       func(s []byte) { sequtil.ReverseComplement(nil, s) },
+					"ReverseComplementString": func(s []byte) { sequtil.ReverseComplementString(string(s)) },
+					"CanonicalSubsequences": func(s []byte) {
+						for range sequtil.CanonicalSubsequences(s, 5) {
+						}
+					}})
+			}},
 			{Name: "hugek", QShards: 2, TShards: 8, Run: c12HugeK},
 			{Name: "readers", Race: true, QShards: 2, TShards: 4, Run: c12Readers},
 			{Name: "parallel", Race: true, Run: sequtilParallel("revcomp")},
